@@ -58,6 +58,19 @@ def cases(chk):
     ]
     for c in corpus:
         yield "script", c
+    # a burst: two or three messages in a row from one sender to one recipient (or group), EACH damaged once — several retry requests are being
+    # served at the same time (the key fetch of one is still unanswered when the next retry receipt arrives)
+    for i in range(chk.scale(14, 300)):
+        n = r.choice([2, 2, 3])
+        if i % 3 == 2:
+            script = [["send", 1, "g", 0, r.randrange(70)] for _i in range(n)]
+            groups = [[1, 2, 3]]
+        else:
+            script = ([["send", 2, "u", 1, r.randrange(70)], ["wait"]] if i % 2 else []) + [["send", 1, "u", 2, r.randrange(70)] for _i in range(n)]
+            groups = []
+        first = 1 if (i % 3 != 2 and i % 2) else 0
+        yield "script", {"accts": 3 if groups else 2, "groups": groups, "script": script, "faults": [[first + j, "corrupt"] for j in range(n)], "restarts": [],
+                         "seed": r.randrange(1 << 30)}
     # group conversations with one damaged copy and the other recipients' receipts racing the retry request
     for i in range(chk.scale(12, 200)):
         na = r.choice([3, 3, 4])
